@@ -100,7 +100,7 @@ def streams(ctx, binary):
 
 def f5_reuse(ro):
     # known finding F5 (decided by the depth sweep): the origin re-entered the mock
-    if str(ro.get("got", "")).startswith("cbo-twice"):
+    if str(ro.get("got", "")).startswith("cbo-twice") or str(ro.get("got", "")).startswith("reentered"):
         ro["finding"] = "F5"
 
 
